@@ -25,12 +25,14 @@ func New[T comparable]() *Notifier[T] {
 	}
 }
 
-func (v *Notifier[T]) removeListener(value T) {
+// removeListener de-registers one Listener from the entry it was registered on. If that entry is no longer the
+// current one for the value (it was notified and possibly replaced by a newer entry), there is nothing to do.
+func (v *Notifier[T]) removeListener(value T, registeredOn *listener) {
 	v.mutex.Lock()
 	defer v.mutex.Unlock()
 
 	valueListeners, exists := v.listeners.Get(value)
-	if !exists {
+	if !exists || valueListeners != registeredOn {
 		return
 	}
 	valueListeners.count--
@@ -50,15 +52,16 @@ func (v *Notifier[T]) Listener(value T) *Listener {
 	if valueListener, exists := v.listeners.Get(value); exists {
 		valueListener.count++
 		return newListener(valueListener.channel, func() {
-			v.removeListener(value)
+			v.removeListener(value, valueListener)
 		})
 	}
 
 	msgProcessedChan := make(chan struct{})
-	v.listeners.Set(value, &listener{msgProcessedChan, 1})
+	valueListener := &listener{msgProcessedChan, 1}
+	v.listeners.Set(value, valueListener)
 
 	return newListener(msgProcessedChan, func() {
-		v.removeListener(value)
+		v.removeListener(value, valueListener)
 	})
 }
 
